@@ -113,7 +113,7 @@ func foreignLayout(r *Run, real bool) {
 			}
 		}
 		sort.Ints(exps)
-		if t.Bool(1, 6, "exponents-a-divisor-apart") {
+		if n <= 24 && n*S <= 2048 && t.Bool(1, 3, "exponents-a-divisor-apart") {
 			// the two lowest exponents differ by a divisor d of 65535 (the
 			// order of the field's multiplicative group), the others lie
 			// anywhere above: for slices whose constants' logarithms differ
